@@ -83,13 +83,45 @@ def _tla_value(s):
         return s
 
 
+_TAG_RE = re.compile(r'^<<\s*"([A-Z_0-9]+)",\s*', re.M)
+
+
+def _scan_printed(out):
+    """PrintT(<<"TAG", value>>) output, also when TLC's pretty printer wraps it over several lines."""
+    found = []
+    dec = json.JSONDecoder()
+    for m in _TAG_RE.finditer(out):
+        i = m.end()
+        if i < len(out) and out[i] == '"':
+            try:
+                inner, j = dec.raw_decode(out, i)
+            except Exception:
+                continue
+            if not re.match(r'\s*>>', out[j:j + 20]):
+                continue
+            try:
+                found.append((m.group(1), json.loads(inner)))
+            except Exception:
+                found.append((m.group(1), inner))
+        else:
+            depth, j = 1, i
+            while j < len(out) - 1 and depth > 0:
+                two = out[j:j + 2]
+                if two == "<<":
+                    depth += 1; j += 2
+                elif two == ">>":
+                    depth -= 1; j += 2
+                else:
+                    j += 1
+            if depth == 0:
+                found.append((m.group(1), _tla_value(" ".join(out[i:j - 2].split()))))
+    return found
+
+
 def parse_tlc(out, res):
     res.out = out
+    res.printed = _scan_printed(out)
     for line in out.splitlines():
-        m = _PRINT_RE.match(line.strip())
-        if m:
-            res.printed.append((m.group(1), _tla_value(m.group(2))))
-            continue
         m = re.match(r"^(\d+) states generated, (\d+) distinct states found", line)
         if m:
             res.generated, res.distinct = int(m.group(1)), int(m.group(2))
